@@ -476,6 +476,10 @@ class Payload:
         if Metrics.isCollecting():
             Metrics.incCount("Compute", "payload_update", 1)
 
+        # An element of a fiber stands for its payload
+        if type(other).__name__ == "CoordPayload":
+            other = other.payload
+
         if isinstance(other, Payload):
             self.value = other.value
         else:
